@@ -106,6 +106,9 @@ def next (G : Codec) (cs : Nat) (sid : String) (s : CState) : NextRes × CState 
       else (.chunk { sid := sid, seq := s.seq + 1, last := decide (acc.length < cs), data := some (G.enc acc) },
             { tr := rest, seq := s.seq + 1, finished := fin })
 
+/-- `Chunker.Abort`: the chunk that tells the receiver to drop the stream -/
+def abortChunk (sid : String) : Chunk := { sid := sid, seq := 0, last := false, abort := true, data := none }
+
 /-- call `Next` until it returns `io.EOF` (→ `true`) or an error (→ `false`) -/
 def runAll (G : Codec) (cs : Nat) (sid : String) : Nat → CState → List Chunk × Bool
   | 0, _ => ([], false)
